@@ -32,4 +32,8 @@ theorem unrolledC_eq_rfc : ∀ s, s < 9 → ∀ o, o < 256 → cUnrolledStep s o
 theorem consts_eq_rfc : Gen.pyAccept = 0 ∧ Gen.pyReject = 1 ∧ Gen.cAccept = 0 ∧ Gen.cReject = 1 ∧
     Gen.tablePyLen = 400 ∧ Gen.tableCLen = 400 := by decide
 
+/-- the C loops run their body also when entered in the reject state (`while (i < length)`, no `&& state != 1`):
+the repair of finding F1 (/repo c2c187d5). Re-introducing the guard flips a generated constant and breaks `nvx_eq_py`. -/
+theorem loops_run_in_reject : Gen.tableLoopGuardsReject = false ∧ Gen.unrolledLoopGuardsReject = false := by decide
+
 end Abverif.Utf8
